@@ -3,7 +3,7 @@ NOTES = ("All checks: /venv/bin/python -m harness.run <ID> --tier quick|thorough
          "REPID_SRC (default /repo) selects the source tree under test.")
 NOT_APPLICABLE = {}
 _MODEL = ("Trusted base: harness/vclock.py (virtual clock; datetime/time rebound inside repid.* modules), Hypothesis 6.168, "
-          "the oracle code in harness/checks, TZ=UTC.")
+          "the oracle code in harness/checks; the host time zone is UTC unless a case draws another one (a generated dimension of the worker scenarios, broker histories and C05/C06/C12 cases).")
 _SRV = (" Redis and RabbitMQ are in-process server models (harness/fredis.py, harness/famqp.py) written from the public "
         "command / protocol documentation; redis-py and aiormq wire encoding below the client API is not exercised.")
 _WORKER = ("Generated worker scenarios run by a real repid Worker on a deterministic virtual-time event loop against an independent "
@@ -14,7 +14,7 @@ CHECKS = [
   "text": "Protocol layer: generated and mutated byte strings in 1-5 chunks against a response-wellformedness / status oracle (tens of thousands "
           "of inputs per quick run, millions of libFuzzer executions in the thorough run, seeded and empty corpus). Socket layer: a real "
           "Worker with the health server on a loopback port; histories of probes, malformed sends, early-opened connections, concurrent "
-          "bursts, bursts of 130-300 connections that send nothing, a consumer failure (in-memory, or a RabbitMQ server-side cancel "
+          "bursts, bursts of 130-300 connections that send nothing, a connection left idle until the worker stops, a consumer failure (in-memory, or a RabbitMQ server-side cancel "
           "whose restart is refused), a worker without actors, jobs and probes during a slow graceful shutdown; oracle 200/503/404 as of the moment the request is "
           "sent, port open exactly while run() runs, jobs undisturbed.",
   "note": "Trusted base: Hypothesis, atheris 3.1 (bytecode instrumentation of the protocol methods), the oracle in harness/checks/c20.py. Socket "
@@ -28,14 +28,16 @@ CHECKS = [
           "tier additionally enumerates every cancellation step of every terminal call over a pool of pre-states (cancel-* sub-checks; sampled in "
           "quick). 'launch'/'collect' rounds keep several consume calls of different clients in flight at once under unequal simulated "
           "latencies; consumers are paused and resumed in between. long-lived-*: a consumer works through 60-1040 messages beside a "
-          "message it once took and returned and that another consumer of the same process now holds, then finishes.",
+          "message it once took and returned and that another consumer of the same process now holds, then finishes. A directed block puts "
+          "several delayed messages on one due instant and consumes them one by one.",
   "note": _MODEL + _SRV + " One open known finding (D9: RabbitMQ requeue is ack+publish, not atomic) is excluded by signature."},
  {"property_id": "C02", "level": "exploration", "design_ref": "DESIGN.md §4 C02",
   "technique": "scenario property-based testing (Hypothesis) with scripted actors against a decision-table reference model, 3 brokers",
   "text": _WORKER + " Oracle = exact expected sequence of terminal broker calls per delivery (op, retry counter), body execution counts, "
           "never-after-eager marker, final place, worker survival. Outcomes include exceptions whose __str__ raises, return values that cannot "
           "be serialised, and a worker connection without a results bucket broker, and eager responses given by a dependency. sync-burst: 33-70 sync "
-          "actors started at once meet at a barrier (each delivery is judged on its own however many threads are busy).",
+          "actors started at once meet at a barrier (each delivery is judged on its own however many threads are busy). The final place of a "
+          "finished chain is judged even when the scenario ran into the horizon.",
   "note": _MODEL + _SRV},
  {"property_id": "C03", "level": "fault_enumeration", "design_ref": "DESIGN.md §4 C03",
   "technique": "step-indexed fault injection on a deterministic event loop (stop signal / process death at loop step k; Hypothesis-drawn k in quick, every k enumerated in thorough) with a replay-of-completed-calls oracle, 3 brokers",
@@ -46,7 +48,8 @@ CHECKS = [
           "the pooled scenarios (not over all workloads); stop-random-* additionally injects into freshly generated workloads, aimed near "
           "broker events of a dry run; kill-* mixes execution timeouts (seconds to days) and runs maintenance at every deadline; limit-multi generates workloads "
           "over 2-3 queues with a message limit, microsecond-grid durations and an optional stop signal, so a message of another queue "
-          "is handed back exactly while the last counted execution ends.",
+          "is handed back exactly while the last counted execution ends. A reject that follows an interrupted ack is judged per alternative "
+          "(ack took effect / did not).",
   "note": _MODEL + _SRV + " asyncio has no preemption inside a loop step, so loop steps are the complete set of interleaving points for one process."},
  {"property_id": "C04", "level": "exploration", "design_ref": "DESIGN.md §4 C04",
   "technique": "scenario property-based testing of retry chains against a retry-ladder model plus parameter-level checks of _prepare_retry",
@@ -59,14 +62,15 @@ CHECKS = [
           "(next_execution_time, delay_until, Job.deferred_until), arrival vs consumer-start interleavings; a consumer consumes continuously "
           "for a 40 s virtual horizon. Oracles: never handed to a NORMAL consumer before T-1ms; delivered within a per-broker bound after T; "
           "far-future messages stay delayed; visible through the DELAYED category only, reject keeps them delayed. 'never forgotten' is decided "
-          "as 'within the stated bound'.",
+          "as 'within the stated bound'. Also: Job.deferred_by forms, a topic-filtered consumer beside a run of foreign delayed messages, non-UTC host zones.",
   "note": _MODEL + _SRV + " Open known findings D19a/D19b (RabbitMQ head-of-line blocking of per-message TTL) are excluded by signature."},
  {"property_id": "C06", "level": "exploration", "design_ref": "DESIGN.md §4 C06",
   "technique": "property-based testing of reschedule arithmetic over generated iteration programmes (pinned clock) plus worker-level recurring scenarios on 3 brokers",
   "text": _WORKER + " Parameter-level layer drives the real _prepare_retry/_prepare_reschedule through 2-10 iterations with generated "
           "latency/duration profiles; oracle = one successor, counter reset, TTL restarted, now<S_next<=now+p, S_next>=S_prev+p. "
           "amqp-long-period runs periods of 1-30 days through the RabbitMQ model. fleet-* serve 1-3 recurring jobs on one time base with "
-          "2-3 workers of their own connections that are stopped and replaced while the others run: every slot runs exactly once.",
+          "2-3 workers of their own connections that are stopped and replaced while the others run: every slot runs exactly once (twins of one "
+          "job, a timestamp equal to now, cadence grids, short ttl, non-UTC host zones included).",
   "note": _MODEL + _SRV + " cron schedules are not exercised (croniter not installed)."},
  {"property_id": "C07", "level": "exploration", "design_ref": "DESIGN.md §4 C07",
   "technique": "round-trip and injectivity property-based testing of codecs and key encodings, plus end-to-end producer->broker->consumer->actor identity checks on 3 brokers",
@@ -86,7 +90,8 @@ CHECKS = [
  {"property_id": "C09", "level": "exploration", "design_ref": "DESIGN.md §4 C09",
   "technique": "scenario property-based testing with an in-body concurrency counter and a bounded-latency progress oracle, 3 brokers",
   "text": _WORKER + " Safety oracle: bodies in progress <= tasks_limit at every instant. Progress oracle: no free slot + deliverable message "
-          "without a start for longer than a per-broker pickup allowance; all jobs start within a stated bound ('eventually' = within the bound).",
+          "without a start for longer than a per-broker pickup allowance; all jobs start within a stated bound ('eventually' = within the bound). "
+          "Timed-out bodies may keep running a cleanup; sync-timeout times out sync actors whose threads outlive the timeout; jobs with a ttl.",
   "note": _MODEL + _SRV},
  {"property_id": "C11", "level": "exploration", "design_ref": "DESIGN.md §4 C11",
   "technique": "property-based testing over generated router/worker/job configurations against a last-registration-wins routing model, 3 brokers, 1-2 workers",
@@ -101,7 +106,8 @@ CHECKS = [
           "instant placed at expiry+eps; oracle: after expiry never handed over / executed, dead-lettered and retrievable from the DEAD category "
           "with identical content; before expiry delivered and never dead-lettered; cases inside the latency slack band counted unconstrained; "
           "a broker spinning on an expiring message (step watchdog) is reported; 1-4 adjacent copies of the expiring message; time-to-live values from seconds to 400 days (scheduled long ago). idle-*: the consumer has been polling an empty queue for "
-          "0.05-3.5 s when a message arrives that expired 1 ms - 1.5 s earlier (or is clearly alive).",
+          "0.05-3.5 s when a message arrives that expired 1 ms - 1.5 s earlier (or is clearly alive). ttl of 0, 1 µs and 0.5 s and non-UTC host zones are drawn; "
+          "a rescheduled message expires at reschedule time + ttl.",
   "note": _MODEL + _SRV},
  {"property_id": "C13", "level": "exploration", "design_ref": "DESIGN.md §4 C13",
   "technique": "scenario property-based testing of stored results against the model's latest-execution outcome, plus fault-injection differential on store_bucket",
@@ -111,7 +117,8 @@ CHECKS = [
   "note": _MODEL + _SRV + " AMQP scenarios use in-memory bucket brokers."},
  {"property_id": "C10", "level": "exploration", "design_ref": "DESIGN.md §4 C10",
   "technique": "scenario property-based testing of messages_limit (bound, self-stop, untouched remainder) and of the run-on-enqueue testing modifier",
-  "text": _WORKER + " Liveness is decided as 'returns within a 45 s virtual horizon'.",
+  "text": _WORKER + " Liveness is decided as 'returns within a 45 s virtual horizon'. Graceful-shutdown times of 0.3 / 1 s with bodies that outlast "
+          "them, actors that spawn tasks, deliveries that fail outside the actor body, results without a bucket broker.",
   "note": _MODEL + _SRV},
  {"property_id": "C14", "level": "exploration", "design_ref": "DESIGN.md §4 C14",
   "technique": "stateful property-based testing with concurrent consume launches over several clients and generated latencies; holder-map oracle; multi-worker exactly-once check",
@@ -119,7 +126,8 @@ CHECKS = [
           "map is maintained from hand-over/return events and every history ends by draining all consumers. Worker level: 2-3 workers on one "
           "queue, each succeeding job executed exactly once. bulk-*: 100-300 (mostly delayed, distinct due times) messages drained by 2-3 "
           "concurrent consumers, each handed out exactly once. Half of the Redis / RabbitMQ histories end with every client dying and "
-          "a new one draining the queue: nothing acknowledged comes back. Statistical over histories and latency vectors.",
+          "a new one draining the queue: nothing acknowledged comes back. workers-stop-*: workers are stopped and replaced while jobs run; "
+          "maintenance runs aimed at execution deadlines; pause/unpause of consumers; a single-client variant. Statistical over histories and latency vectors.",
   "note": _MODEL + _SRV + " Open known finding D24 (Redis maintenance reclaims messages of live consumers after the execution timeout) is excluded by signature."},
  {"property_id": "C15", "level": "exploration", "design_ref": "DESIGN.md §4 C15",
   "technique": "model-based property-based testing of delivery order (single consumer, single priority) with drain / continuous-backlog / reject-and-reawait histories, 3 brokers",
@@ -127,7 +135,8 @@ CHECKS = [
           "one; a returned message precedes everything enqueued after its return; nothing matching starves while the consumer polls; "
           "queue lengths cross Redis's fetch window of 10; a spinning broker call (step watchdog) is reported; foreign-run mode puts 10-30 "
           "foreign-topic messages ahead of own ones, with returns and a second consumer eating the run; pause mode pauses and resumes the "
-          "consumer while messages (some prefetched) wait; a third of the cases mix several priority levels in the queue.",
+          "consumer while messages (some prefetched) wait; a third of the cases mix several priority levels in the queue; racing mode lets a second "
+          "client change the Redis queue between the consumer's read and its transaction; bodies up to 100 kB; bulk enqueues of 60-150.",
   "note": _MODEL + _SRV + " Open known finding D20 (RabbitMQ foreign-topic head-of-line blocking under a small prefetch limit) is excluded by signature."},
  {"property_id": "C16", "level": "exploration", "design_ref": "DESIGN.md §4 C16",
   "technique": "model-based property-based testing of message-API call sequences on handles of every category and retry state; generated actor programmes for callback/result-store order",
